@@ -100,8 +100,11 @@ var c06ChainPrices = []uint64{0, 1, 2, 100, 100, 101, 102, 1000, ^uint64(0)}
 
 func genC06Submit(rt *rapid.T, nsig, val int, disc int64) c06Op {
 	op := c06Op{K: "submit", Val: val}
-	if gen.Chance(rt, "tsoff", 1, 8) {
+	switch gen.Pick(rt, "tsoff", 12, 2, 2) {
+	case 1: // at / just outside the allowed discrepancy
 		op.TsOff = int64(gen.OneOf(rt, "tsoffv", -1, 1)) * (disc + int64(gen.Uniform(rt, "tsd", 2)))
+	case 2: // a validator clock that is off, inside the allowed discrepancy: earlier or later than the block time
+		op.TsOff = int64(gen.OneOf(rt, "tsoffv", -1, 1)) * int64(gen.Range(rt, "tsin", 1, int(disc)))
 	}
 	first := gen.Uniform(rt, "sig0", nsig)
 	cnt := nsig
@@ -346,6 +349,9 @@ type c06Report struct {
 	st    int
 	price uint64
 	ts    int64
+	// what the validator wrote into msg.Timestamp (within the allowed discrepancy of the block time). The documents
+	// date a report by the block that included it; the claimed time is kept for statistics only
+	claimed int64
 	// the validator sent a later report while this signal was not a current feed. x/feeds keeps "the latest price of
 	// each signal ID of Current feeds" only, the documents do not say when exactly the older report is dropped: the
 	// model does not decide (feeds it matters for are not compared while the report would still be fresh)
@@ -640,7 +646,11 @@ func runC06Chain(c c06ChainCase) *pbt.Verdict {
 					}
 				}
 				for _, p := range o.Prices {
-					model[o.Val%n][c06SigName(p.Sig%(nsig+1))] = c06Report{st: p.St, price: p.Price, ts: now}
+					model[o.Val%n][c06SigName(p.Sig%(nsig+1))] = c06Report{st: p.St, price: p.Price, ts: now, claimed: now + o.TsOff}
+				}
+				if o.TsOff != 0 {
+					classes["msg-timestamp!=block-time accepted"] = true
+					stat["submit_ok_msg_timestamp_off"]++
 				}
 			case "activate":
 				activated[o.Val%n] = true
@@ -748,12 +758,18 @@ func runC06Chain(c c06ChainCase) *pbt.Verdict {
 			var lo, hi uint64
 			prices := map[uint64]bool{}
 			var clamped []ref.FeedEntry // the reports that are also fresh for the MaxInterval parameter in force
+			var byClaim []ref.FeedEntry // what the inputs would be if reports were dated by msg.Timestamp
+			type stamp struct{ ts, claimed int64 }
+			var stamps []stamp
 			undecided := false
 			for _, b := range bonded {
 				if !(activeBefore[b.i] || activated[b.i]) {
 					continue
 				}
 				r, ok := model[b.i][feed.SignalID]
+				if ok && !r.ambiguous && r.claimed >= now-feed.Interval {
+					byClaim = append(byClaim, ref.FeedEntry{Status: r.st, Power: b.tokens, Price: r.price, Time: r.claimed})
+				}
 				if !ok || r.ts < now-feed.Interval {
 					continue
 				}
@@ -761,6 +777,7 @@ func runC06Chain(c c06ChainCase) *pbt.Verdict {
 					undecided = true
 					break
 				}
+				stamps = append(stamps, stamp{r.ts, r.claimed})
 				entries = append(entries, ref.FeedEntry{Status: r.st, Power: b.tokens, Price: r.price, Time: r.ts})
 				if r.ts >= now-curParams.MaxInterval {
 					clamped = append(clamped, entries[len(entries)-1])
@@ -792,6 +809,20 @@ func runC06Chain(c c06ChainCase) *pbt.Verdict {
 				if cst, cpr, cok, _, _ := ref.FeedPrice(clamped, quorum); cok != wok || cst != wst || cpr != wpr {
 					classes["price-age-in-(max,interval] decides the result"] = true
 					stat["price_age_in_(max,interval]_decides"]++
+				}
+			}
+			for _, a := range stamps {
+				for _, b := range stamps {
+					if a.ts < b.ts && a.claimed > b.claimed {
+						classes["earlier-submitter-claims-later-time"] = true
+					}
+				}
+			}
+			if cst, cpr, cok, _, _ := ref.FeedPrice(byClaim, quorum); cok != wok || cst != wst || cpr != wpr {
+				classes["msg-timestamp would decide the result"] = true
+				stat["msg_timestamp_would_decide"]++
+				if len(byClaim) > len(entries) {
+					classes["report stale by block time, fresh by msg-timestamp"] = true
 				}
 			}
 			got := ch.App.FeedsKeeper.GetPrice(ctx, feed.SignalID)
